@@ -256,9 +256,12 @@ class G:
         if r < 6:
             return "import " + self.r.pick(['"a.typ"', '"a.typ": b, c', '"a.typ": (c as d, b)', '"a.typ" as m', '"a.typ": *'])
         if r < 7:
-            return "for " + self.r.pick(["x", "(k, v)"]) + " in " + g.expr() + " {" + g.sp(True) + g.expr() + g.sp(True) + "}"
+            it = g.expr() if self.r.chance(1, 2) else self.r.pick(['"alpha-beta-gamma".split("-").rev()', "words.sorted().dedup()",
+                                                                      "it.text.clusters().rev()", "range(1, 10).map(i => i * 2)", "a.b.c(1).d"])
+            body = self.r.pick([" {" + g.sp(True) + g.expr() + g.sp(True) + "}", " [" + self.r.pick(["- #x", "a #x b", ""]) + "]"])
+            return "for " + self.r.pick(["x", "(k, v)"]) + " in " + it + body
         if r < 8:
-            return "while " + g.expr() + " { " + g.expr() + " }"
+            return "while " + self.r.pick([g.expr(), "items.len() > 0 and queue.first().ready()", "not done.at(0).flag"]) + " { " + g.expr() + " }"
         if r < 9:
             return "return " + g.expr()
         if r < 10:
